@@ -544,9 +544,13 @@ def r01_1_bit_layout(ctx: Ctx) -> RuleResult:
     # encoders vs decoders
     ctor = M.find_method(yc, "_ctor")
     enc = None
+    from ..kit import inline_locals
+
     for n in own_nodes(ctor.node):
-        if isinstance(n, ast.Assign) and unparse(n.targets[0]).endswith("__value") and len(_or_terms(n.value)) == 4:
-            enc = encoder_fields(ctx, n.value, yc, yc.mod)
+        if isinstance(n, ast.Assign) and unparse(n.targets[0]).endswith("__value"):
+            val = inline_locals(ctor.node, n.value)  # temporaries for the shifted fields are part of the expression
+            if len(_or_terms(val)) == 4:
+                enc = encoder_fields(ctx, val, yc, yc.mod)
     rr.inst()
     if enc is None:
         rr.fail(ctor.qual, "four-field packing expression not found", ctx.loc(ctor))
